@@ -268,8 +268,8 @@ Section PayProofProofs.
                                 (lg_excess e) = Ok p
       /\ pf_amount p = cx_amount c /\ pf_excess p = kn_excess k
       /\ (forall a, cx_pp_recipient c = Some a -> pf_raddr p = a)
-      /\ (w_parent w = cx_parent c -> pf_saddr p = pub (addr_sk (cx_parent c) i))
-      /\ (w_parent w = cx_parent c -> verify_payment_proof p (Some true) vparent = Ok v).
+      /\ pf_saddr p = pub (addr_sk (cx_parent c) i)
+      /\ verify_payment_proof p (Some true) vparent = Ok v.
   Proof.
     intros Hi Hf Hfs Hcons Hent H.
     pose proof (core_requires_proof _ _ _ _ _ _ Hi H) as (pp & s & k & ks & o & H1 & H2 & H3 & _ & _ & H6 & H7 & H8 & H9).
@@ -296,10 +296,10 @@ Section PayProofProofs.
     split; [assumption|]. split; [assumption|]. split; [assumption|]. split; [reflexivity|].
     cbn [pf_amount pf_excess pf_raddr pf_saddr].
     split; [reflexivity|]. split; [reflexivity|]. split; [assumption|].
-    split; [intros ->; reflexivity|].
-    intros Hpar. unfold PayProof.verify_payment_proof.
+    split; [reflexivity|].
+    unfold PayProof.verify_payment_proof.
     cbn [pf_amount pf_excess pf_raddr pf_saddr pf_rsig pf_ssig].
-    rewrite Hpar, H2. fold sender. rewrite H8, H9. rewrite verify_sign. cbn [negb].
+    rewrite H2. fold sender. rewrite H8, H9. rewrite verify_sign. cbn [negb].
     unfold sender at 1. rewrite verify_sign. cbn [negb]. reflexivity.
   Qed.
 End PayProofProofs.
